@@ -1,4 +1,5 @@
 import SlipVerif.Lemmas.Flavors
+import SlipVerif.Lemmas.FlavorsSend
 /-
   C11 — flavor inheritance and daemon order follow component order, whatever the history.
 
@@ -89,6 +90,16 @@ theorem prec_unique (h : List Form) (hv : valid h = true) (G : Name → List Nam
     ∀ n, n ∈ defined h → G n = prec h n :=
   precR_unique hv G (fun n cs sl hm => hG n cs sl (List.mem_reverse.mp hm))
 
+/-- `:included-flavors` of a non-abstract flavor (the driver hands them to `defflavor` behind the
+    written components, as slip's `addIncludes` does): they follow all written components and
+    everything those bring along, in the order listed -/
+theorem included_flavors_after_components (h : List Form) (hv : valid h = true) {n : Name}
+    {cs inc : List Name} {sl : List (Slot × Option Int)} (hm : Form.defflavor n (cs ++ inc) sl ∈ h) :
+    prec h n = n :: dedup (cs.flatMap (prec h) ++ inc.flatMap (prec h)) := by
+  rw [prec_equation h hv hm, List.flatMap_append]
+
+example : prec [Form.defflavor 1 [] [], .defflavor 2 [] [], .defflavor 3 ([1] ++ [2]) []] 3 = [3, 1, 2] := by decide
+
 /-- `dedup` keeps exactly the members, each once; by definition
     `dedup (x :: xs) = x :: (dedup xs).filter (· ≠ x)`: the first occurrence stays -/
 theorem dedup_spec (l : List Name) : (dedup l).Nodup ∧ ∀ x, x ∈ dedup l ↔ x ∈ l :=
@@ -178,6 +189,87 @@ example : specTrace [9] exampleHistory 3 1
 example : specTrace [9] exampleHistory 3 9 = [.primary 15] := by decide
 example : specCombos [9] exampleHistory 3 1 ≠ [] := by decide
 
+/-! ## sends with an argument; whoppers that continue zero, one or several times and pass a
+    changed argument on; the default handler (extension round) -/
+
+/-- `send_order_args`: `(send inst m a)` with arbitrary whopper bodies (`wb w` lists the
+    `(continue-whopper …)` calls body `w` makes and the change of the argument in each). The
+    trace is `wrapA` over the whoppers in precedence order, outermost first: a whopper's entry,
+    then for every continue of its body the remaining whoppers and finally every :before in
+    precedence order, the first primary, every :after in reverse order — each called with the
+    argument the innermost enclosing continue passed —, then the whopper's exit. The value is the
+    value of the last continue of the outermost whopper (its own value when it never continues).
+    Independent of the order in which flavors, methods and whoppers were defined. -/
+theorem send_order_args (wb : WhopBody) (vm : List Msg) (h : List Form) (hv : valid h = true) :
+    ∃ st, run vm h = .ok st ∧ ∀ fl, fl ∈ defined h → ∀ m a, specCombos vm h fl m ≠ [] →
+      sendA wb st fl m a = .ran (specTraceA wb vm h fl m a) (specResA wb vm h fl m a) := by
+  obtain ⟨st, hrun, hI⟩ := run_inv vm h.reverse hv
+  rw [List.reverse_reverse] at hrun
+  refine ⟨st, hrun, fun fl hfl m a hne => ?_⟩
+  have hd : st.defd fl = true := (hI.defd fl).mpr (Or.inr hfl)
+  have ht : st.tab fl m = specCombosR vm h.reverse fl m := hI.tab fl hfl m
+  unfold sendA
+  simp only [hd, Bool.true_eq_false, if_false]
+  rw [ht]
+  unfold specCombos at hne
+  cases hc : specCombosR vm h.reverse fl m with
+  | nil => exact absurd hc hne
+  | cons c cs =>
+    simp only
+    rw [← hc, sendTraceA_spec, sendResA_spec]
+    rfl
+
+/-- with bodies that continue exactly once and pass their argument on unchanged, the trace of
+    `send_order_args` is the flat trace of `send_order` -/
+theorem specTraceA_once (vm : List Msg) (h : List Form) (fl : Name) (m : Msg) (a : Int) :
+    (specTraceA once vm h fl m a).map EvA.erase = specTrace vm h fl m := by
+  unfold specTraceA specTraceAR specTrace specTraceR specInnerAR
+  rw [wrapA_once]
+  cases (daemonsR vm h.reverse fl m Kind.primary).head? <;>
+    simp [List.map_append, List.map_map, Function.comp_def, EvA.erase]
+
+/-- the driver's `sendA` and the `send` of `send_order` agree on what they share -/
+theorem sendA_once_eq_send (st : State) (fl : Name) (m : Msg) (a : Int) (c : Combo) (cs : List Combo)
+    (hd : st.defd fl = true) (ht : st.tab fl m = c :: cs) :
+    ∃ tr r, sendA once st fl m a = .ran tr r ∧
+      send st fl m = .ok (tr.map EvA.erase, sendResult (c :: cs)) := by
+  refine ⟨callFromA once (c :: cs) (c :: cs) a, resFromA once (c :: cs) (c :: cs) a, ?_, ?_⟩
+  · simp [sendA, hd, ht]
+  · simp only [send, hd, ht, Bool.true_eq_false, if_false, sendTrace]
+    rw [callFromA_once]
+
+/-- a whopper body that never continues hides every other daemon: only its entry and exit -/
+theorem whopper_without_continue (wb : WhopBody) (vm : List Msg) (h : List Form) (fl : Name) (m : Msg)
+    (a : Int) (w : Mid) (ws : List Mid) (hw : daemons vm h fl m .whopper = w :: ws) (h0 : wb w = []) :
+    specTraceA wb vm h fl m a = [.whopIn w a, .whopOut w a] ∧ specResA wb vm h fl m a = .whopper w := by
+  unfold daemons at hw
+  unfold specTraceA specTraceAR specResA specResAR
+  rw [hw]
+  exact ⟨wrapA_stop wb _ w ws a h0, by simp [wrapRes, h0]⟩
+
+/-- a whopper body that continues twice runs everything inside it twice, each time with the
+    argument that continue passed -/
+theorem whopper_continues_twice (wb : WhopBody) (vm : List Msg) (h : List Form) (fl : Name) (m : Msg)
+    (a d1 d2 : Int) (w : Mid) (ws : List Mid) (hw : daemons vm h fl m .whopper = w :: ws)
+    (h2 : wb w = [d1, d2]) :
+    specTraceA wb vm h fl m a
+      = .whopIn w a :: (wrapA wb (specInnerAR vm h.reverse fl m) ws (a + d1)
+          ++ wrapA wb (specInnerAR vm h.reverse fl m) ws (a + d2) ++ [.whopOut w a]) := by
+  unfold daemons at hw
+  unfold specTraceA specTraceAR
+  rw [hw]
+  exact wrapA_twice wb _ w ws a d1 d2 h2
+
+/-- whopper bodies of the `example`s: 13 continues twice (argument +1, then +2) -/
+def exampleBodies : WhopBody := fun w => if w = 13 then [1, 2] else [0]
+
+example : specTraceA exampleBodies [9] exampleHistory 3 1 5
+    = [.whopIn 13 5, .before 11 6, .before 10 6, .primary 12 6, .after 14 6,
+       .before 11 7, .before 10 7, .primary 12 7, .after 14 7, .whopOut 13 5] := by decide
+example : specResA exampleBodies [9] exampleHistory 3 1 5 = .primary 12 7 := by decide
+example : daemons [9] exampleHistory 3 1 .whopper = [13] := by decide
+example : specResA (fun _ => []) [9] exampleHistory 3 1 5 = .whopper 13 := by decide
+
 /-! ## instance variable defaults, init keywords, accessors -/
 
 /-- `vars_inherited_by_precedence`: the default value of an instance variable / the init
@@ -211,6 +303,68 @@ theorem vars_inherited_by_precedence (vm : List Msg) (h : List Form) (hv : valid
 example : specSlot exampleHistory 3 1 = some (some 5) := by decide
 example : specSlot exampleHistory 3 2 = some none := by decide
 example : specSlot exampleHistory 3 3 = none := by decide
+
+/-- `default_handler_by_precedence`: a message no flavor of the precedence list has a method for
+    goes to the default handler of the first flavor in precedence order that declares one
+    (`:default-handler`); without any it is rejected. -/
+theorem default_handler_by_precedence (wb : WhopBody) (vm : List Msg) (h : List Form)
+    (hv : valid h = true) :
+    ∃ st, run vm h = .ok st ∧ ∀ fl, fl ∈ defined h → ∀ m a, specCombos vm h fl m = [] →
+      sendA wb st fl m a =
+        (match (flatten h fl).findSome? (fun g => ownSlot h g handlerSlot) with
+         | some (some hd) => Outcome.handled hd
+         | _ => Outcome.noMethod) := by
+  obtain ⟨st, hrun, hs⟩ := run_eq_spec vm h hv
+  obtain ⟨st', hrun', hsl⟩ := vars_inherited_by_precedence vm h hv
+  have hst : st' = st := by
+    rw [hrun] at hrun'
+    exact (Except.ok.inj hrun').symm
+  subst hst
+  obtain ⟨st2, hrun2, hI⟩ := run_inv vm h.reverse hv
+  rw [List.reverse_reverse] at hrun2
+  have hst2 : st2 = st' := by
+    rw [hrun] at hrun2
+    exact (Except.ok.inj hrun2).symm
+  subst hst2
+  refine ⟨st2, hrun, fun fl hfl m a he => ?_⟩
+  have hd : st2.defd fl = true := (hI.defd fl).mpr (Or.inr hfl)
+  unfold sendA
+  simp only [hd, Bool.true_eq_false, if_false]
+  rw [(hs fl hfl).2.1 m, he, hsl fl hfl handlerSlot]
+  rfl
+
+example : (flatten [Form.defflavor 1 [] [], .defflavor 2 [] [(20, some 7)], .defflavor 3 [1, 2] []] 3).findSome?
+    (fun g => ownSlot [Form.defflavor 1 [] [], .defflavor 2 [] [(20, some 7)], .defflavor 3 [1, 2] []] g handlerSlot)
+      = some (some 7) := by decide
+
+/-- `send_history_independent`: the last sentence of the property. Two valid histories made of the
+    same forms (one form per flavor, daemon kind and message) — e.g. the methods defined before
+    the flavors that inherit them in one, after them in the other — give the same outcome for
+    every send: same daemons in the same order with the same arguments, same value, same default
+    handler. -/
+theorem send_history_independent (wb : WhopBody) (vm : List Msg) (h1 h2 : List Form)
+    (hv1 : valid h1 = true) (hv2 : valid h2 = true) (hp : h1.Perm h2) (hu : (methodKeys h1).Nodup) :
+    ∃ st1 st2, run vm h1 = .ok st1 ∧ run vm h2 = .ok st2 ∧ ∀ fl, fl ∈ defined h1 → ∀ m a,
+      sendA wb st1 fl m a = sendA wb st2 fl m a := by
+  obtain ⟨st1, hrun1, hI1⟩ := run_inv vm h1.reverse hv1
+  obtain ⟨st2, hrun2, hI2⟩ := run_inv vm h2.reverse hv2
+  rw [List.reverse_reverse] at hrun1 hrun2
+  have hpr : h1.reverse.Perm h2.reverse := (List.reverse_perm h1).trans (hp.trans (List.reverse_perm h2).symm)
+  refine ⟨st1, st2, hrun1, hrun2, fun fl hfl m a => ?_⟩
+  have hfl2 : fl ∈ definedR h2.reverse := (definedR_perm hpr fl).mp hfl
+  have hd1 : st1.defd fl = true := (hI1.defd fl).mpr (Or.inr hfl)
+  have hd2 : st2.defd fl = true := (hI2.defd fl).mpr (Or.inr hfl2)
+  have ht : st1.tab fl m = st2.tab fl m := by
+    rw [hI1.tab fl hfl m, hI2.tab fl hfl2 m]
+    exact specCombosR_perm hv1 hv2 hpr hu vm hfl m
+  have hs : st1.slots fl handlerSlot = st2.slots fl handlerSlot := by
+    rw [hI1.slots fl hfl handlerSlot, hI2.slots fl hfl2 handlerSlot]
+    exact specSlotR_perm hv1 hv2 hpr hfl handlerSlot
+  unfold sendA
+  simp only [hd1, hd2, ht, hs]
+
+example : (specTraceA exampleBodies [9] exampleHistory 3 1 5 = specTraceA exampleBodies [9] exampleHistory' 3 1 5) := by
+  decide
 
 /-! ## rejected forms -/
 
